@@ -703,6 +703,28 @@ class Gen:
         t = f % v
         if f.startswith('0x') or f.startswith('0X'): return t[:2] + z + t[2:]
         return (z + t) if f != '%d' else t
+    def s_buf(self):
+        """C04 / C18 / C20: upa::simple_buffer<char, N> histories for every inline capacity the library's tests use, and the
+        string view of the configuration; lengths straddle N, 16 (the minimum heap capacity) and the powers of two"""
+        self.stat('case:buf')
+        if self.r.randrange(4) == 0:
+            al = [0x00, 0x61, 0x62, 0x7f, 0x80, 0xff, 0x41]
+            a = [self.pick(al) for _ in range(self.r.randrange(0, 6))]
+            b = list(a) if self.r.randrange(3) == 0 else [self.pick(al) for _ in range(self.r.randrange(0, 6))]
+            if a and self.r.randrange(3) == 0: b = a[:self.r.randrange(len(a) + 1)] + ([self.pick(al)] if self.r.randrange(2) else [])
+            self.emit('sv %s %s %d' % (U(a), U(b), self.pick([0, 1, 2, 3, 5, 9])))
+            return
+        n = self.pick([0, 1, 2, 4, 16, 1024])
+        ops = []
+        if self.r.randrange(4) == 0: ops.append('i%d' % self.pick([0, 1, n, n + 1, 3, 17, 100, 1025, 2049]))
+        for _ in range(self.r.randrange(1, 14)):
+            o = self.pick(['p', 'p', 'p', 'a', 'a', 'a', 'r', 'v', 'c', 'k', 'k'])
+            if o == 'p': ops.append('p%02x' % self.r.randrange(256))
+            elif o == 'a': ops.append('a' + ''.join('%02x' % self.r.randrange(256) for _ in range(self.pick([0, 1, 2, 3, 5, 15, 16, 17, 31, 33, 64, 65, n, n + 1, 1023 if n == 1024 else 7, 1025 if n == 1024 else 9]))))
+            elif o == 'r': ops.append('r%d' % self.pick([0, 1, 2, 3, n, n + 1, 16, 17, 40, 1024, 1025, 2050]))
+            elif o == 'v': ops.append('v%d' % self.pick([0, 1, n, n + 1, 16, 33, 100, 1025, 4097]))
+            else: ops.append(o)
+        self.emit('buf %d %s' % (n, ';'.join(ops)))
     def s_ipv4(self):
         self.stat('case:ipv4')
         x = self.r.randrange(100)
@@ -950,7 +972,7 @@ class Gen:
         if self.r.randrange(4) == 0: self.emit('pdec %s' % self.arg('%C3%A9' * n, e))
         if self.r.randrange(4) == 0: self.emit('host %s' % self.arg(('\u00e4' * 60 + '.') * (n // 61), e))
 
-STREAMS = {
+STREAMS = {'buf': lambda g: g.s_buf(), 
     'url': Gen.s_url, 'set': Gen.s_set, 'obj': Gen.s_obj, 'psp': Gen.s_psp, 'form': Gen.s_form, 'host': Gen.s_host,
     'enc': Gen.s_enc, 'encraw': Gen.s_encraw, 'ipv4': Gen.s_ipv4, 'ipv4ser': Gen.s_ipv4ser, 'ipv6': Gen.s_ipv6, 'ipv6ser': Gen.s_ipv6ser,
     'pct': Gen.s_pct, 'file': Gen.s_file, 'filert': Gen.s_file_rt, 'size': Gen.s_size,
